@@ -243,7 +243,7 @@ class QintImp(int, Qtype):
         # If one operand is an even constant, use mul_even_const
         if cls.is_const(tleft) or cls.is_const(tright):
             t_num = tleft if cls.is_const(tright) else tright
-            t_const = tleft if cls.is_const(tleft) else tright
+            t_const = tright if cls.is_const(tright) else tleft
             const = cast(int, cast(Qtype, t_const[0]).from_bool(t_const[1]))
 
             if const % 2 == 0:
